@@ -211,6 +211,8 @@ DOCS = [
     (["PUSH 0 PUSH 5 ADD PUSH 7 MSTORE"], ["SWAP1 SWAP1 PUSH 1 ADD", "DUP1 DUP1 XOR ADD"]),
     (["DUP2 DUP2 MSTORE MLOAD ADD", "PUSH 0 MSTORE PUSH 20 MSTORE"], ["PUSH 0 SLOAD PUSH 1 SLOAD ADD PUSH 0 SSTORE", "SWAP2 SWAP1 SUB MUL PUSH 0 ADD"]),
     (["CALLVALUE DUP1 ISZERO PUSH 4 ADD POP"], ["PUSH 4 CALLDATALOAD PUSH e0 SHR PUSH 1 MUL", "PUSH 1 PUSH 0 SSTORE PUSH 2 PUSH 0 SSTORE", "POP PUSH 3 PUSH 0 ADD"]),
+    # a block the front end cannot analyse (kept by the optimizing run, nothing logged for it) between two ordinary ones (finding F47)
+    (["PUSH 3 PUSH 0 MSTORE"], ["PUSH 1 PUSH 2 ADD POP", "DUP2 PUSH 0 MSTORE PUSH 20 PUSH 0 KECCAK256 POP", "PUSH 5 PUSH 7 ADD PUSH 0 SSTORE"]),
 ]
 
 
